@@ -17,7 +17,9 @@ RULE = ("the real regularizer objects (tfl.lattice_layer.LaplacianRegularizer/To
         "list / tuple (zeros in some dimensions, all-zero and empty lists included); kernels random dyadic, "
         "constant, additively separable, single spike; per-dimension amounts of the wrong length must be "
         "rejected with ValueError at construction (object and layer). PWL: 2-7 rows, units 1-3, cyclic or not, amounts "
-        "0/0.5/1/2 (int or float); kernels random, constant / linear / quadratic keypoint outputs. In Coq "
+        "0/0.5/1/2 (int or float); kernels random, constant / linear / quadratic keypoint outputs. ~10% of the "
+        "cases run in float32 (class suffix _f32): float32 tensors / variables, and float32 Lattice / PWLCalibration "
+        "layers (the layers' default dtype), same dyadic kernels, tolerance 1e-5. In Coq "
         "both the code-shaped model and the documented formula are evaluated on the same kernel and compared "
         "with the returned value. Non-trivial = the returned value is non-zero; distinct = distinct "
         "(regularizer, configuration, kernel).")
@@ -25,9 +27,11 @@ TRUSTED = ["model: Model/Regularizers.v (hand-written from lattice_lib.laplacian
            "torsion_regularizer and the three pwl_calibration_layer regularizer classes; transpose+reshape "
            "modelled by its index-level meaning); the scalar torsion amount is modelled without a square "
            "root (sqrt(l)*sqrt(l) = l; theorem C13_torsion_scalar_sqrt_oracle covers any exact root)",
-           "tie: regularizer objects / layer.losses evaluated in float64 on dyadic kernels, compared in "
-           "Coq with the code-shaped model AND with the documented formula (tolerance 1e-9 relative)"]
-LIMITS = ["float rounding of reduce_sum and of math.sqrt(l)*math.sqrt(l) is outside the model (tolerance 1e-9)",
+           "tie: regularizer objects / layer.losses evaluated in float64 (and, for a tenth of the cases, float32) on "
+           "dyadic kernels, compared in Coq with the code-shaped model AND with the documented formula (tolerance 1e-9 "
+           "relative; float32: 1e-5, carried by the case)"]
+LIMITS = ["float rounding of reduce_sum and of math.sqrt(l)*math.sqrt(l) is outside the model (tolerance 1e-9; float32 "
+          "cases 1e-5 * max(1, |v|) in the Coq comparison and in the predicates)",
           "per-dimension amount lists longer than the lattice rank are outside the theorems' domain (amount_ok); "
           "both regularizer constructors reject wrong lengths with ValueError, which is tested, not proved; "
           "negative scalar torsion amounts (math.sqrt raises) are outside the model's domain",
@@ -37,6 +41,21 @@ LIMITS = ["float rounding of reduce_sum and of math.sqrt(l)*math.sqrt(l) is outs
 
 KINDS = ["lat_laplacian", "lat_torsion", "pwl_laplacian", "pwl_hessian", "pwl_wrinkle"]
 TOL = 1e-9
+TOL32 = 1e-5
+
+
+def fine(rng, v):
+  """float32 cases only: moves a value by a few 2^-12 (still exact in float32, but not in float16 / bfloat16: a lossy
+  cast on the float32 path is invisible on multiples of 1/8)."""
+  return v + rng.choice([0, 0, 1, -1, 3, -5]) * 2.0 ** -12
+
+
+def is_f32(d):
+  return d.get("dtype") == "float32"
+
+
+def tol_of(d):
+  return TOL32 if is_f32(d) else TOL
 
 
 # --------------------------------------------------------------------------
@@ -132,6 +151,10 @@ def gen_descs(ctx):
                       l1=l1, l2=l2, cyclic=False, kclass=kclass, via=via,
                       input_form=rng.choice(["constant", "variable"]),
                       kernel=_lattice_kernel(rng, sizes, units, kclass)))
+      if rng.random() < (0.25 if via == "layer" else 0.07):
+        out[-1]["dtype"] = "float32"
+        if kclass in ("random", "spike"):
+          out[-1]["kernel"] = [[fine(rng, v) for v in row] for row in out[-1]["kernel"]]
   # per-dimension amounts whose length differs from the rank: both regularizers must
   # reject them with ValueError at construction (directly or through the layer)
   for kind in ("lat_laplacian", "lat_torsion"):
@@ -169,6 +192,10 @@ def gen_descs(ctx):
                       cyclic=rng.random() < 0.5, kclass=kclass, via=via,
                       input_form=rng.choice(["constant", "variable"]),
                       kernel=_pwl_kernel(rng, rows, units, kclass)))
+      if rng.random() < (0.25 if via == "layer" else 0.07):
+        out[-1]["dtype"] = "float32"
+        if kclass in ("random", "spike"):
+          out[-1]["kernel"] = [[fine(rng, v) for v in row] for row in out[-1]["kernel"]]
   return out
 
 
@@ -214,19 +241,26 @@ def _construct_rejected(tfl, d, l1, l2):
 def _run(tf, tfl, d, l1, l2):
   """Calls the real regularizer (directly or through a layer) and returns a float."""
   kind = d["kind"]
-  k = np.array(d["kernel"], dtype=np.float64)
+  dtname = "float32" if is_f32(d) else "float64"
+  k = np.array(d["kernel"], dtype=dtname)
+
+  def layer_loss(layer):
+    losses = layer.losses
+    assert len(losses) == 1, losses
+    if layer.kernel.dtype.base_dtype.name != dtname or losses[0].dtype.name != dtname:
+      raise TypeError("layer built with dtype=%s has a %s kernel and a %s regularization loss" % (
+          dtname, layer.kernel.dtype.base_dtype.name, losses[0].dtype.name))
+    return float(losses[0])
   if kind.startswith("lat_"):
     sizes = tuple(d["sizes"]) if d["sizes_form"] == "tuple" else list(d["sizes"])
     if d["via"] == "layer":
       name = "laplacian" if kind == "lat_laplacian" else "torsion"
       layer = tfl.layers.Lattice(lattice_sizes=sizes, units=d["units"], kernel_regularizer=(name, l1, l2),
-                                 dtype="float64")
+                                 dtype=dtname)
       rank = len(d["sizes"])
       layer.build((None, rank) if d["units"] == 1 else (None, d["units"], rank))
       layer.kernel.assign(k)
-      losses = layer.losses
-      assert len(losses) == 1, losses
-      return float(losses[0])
+      return layer_loss(layer)
     cls = tfl.lattice_layer.LaplacianRegularizer if kind == "lat_laplacian" else tfl.lattice_layer.TorsionRegularizer
     reg = cls(sizes, l1, l2)
   else:
@@ -234,18 +268,19 @@ def _run(tf, tfl, d, l1, l2):
       name = kind[4:]
       nkp = len(d["kernel"]) + (1 if d["cyclic"] else 0)
       layer = tfl.layers.PWLCalibration(input_keypoints=[float(i * i + i) for i in range(nkp)], units=d["units"],
-                                        is_cyclic=d["cyclic"], kernel_regularizer=(name, l1, l2), dtype="float64")
+                                        is_cyclic=d["cyclic"], kernel_regularizer=(name, l1, l2), dtype=dtname)
       layer.build((None, d["units"]))
       layer.kernel.assign(k)
-      losses = layer.losses
-      assert len(losses) == 1, losses
-      return float(losses[0])
+      return layer_loss(layer)
     cls = {"pwl_laplacian": tfl.pwl_calibration_layer.LaplacianRegularizer,
            "pwl_hessian": tfl.pwl_calibration_layer.HessianRegularizer,
            "pwl_wrinkle": tfl.pwl_calibration_layer.WrinkleRegularizer}[kind]
     reg = cls(l1=l1, l2=l2, is_cyclic=d["cyclic"])
   x = tf.Variable(k) if d["input_form"] == "variable" else tf.constant(k)
-  return float(reg(x))
+  res = reg(x)
+  if res.dtype.name != dtname:
+    raise TypeError("regularizer of a %s kernel returns %s" % (dtname, res.dtype.name))
+  return float(res)
 
 
 # --------------------------------------------------------------------------
@@ -303,8 +338,8 @@ def _reference(d):
   return tot
 
 
-def _close(a, b):
-  return abs(a - b) <= TOL * max(1.0, abs(b))
+def _close(a, b, tol=TOL):
+  return abs(a - b) <= tol * max(1.0, abs(b))
 
 
 def eval_cases(ctx, descs):
@@ -331,7 +366,7 @@ def eval_cases(ctx, descs):
         fail = "regularizer returned a non-finite value %r" % out
       elif out < 0:
         fail = "regularizer is negative for non-negative amounts: %r" % out
-      elif not _close(out, ref):
+      elif not _close(out, ref, tol_of(d)):
         fail = "regularizer %r differs from the documented sum %r" % (out, ref)
       else:
         zero_expected = (
@@ -339,29 +374,31 @@ def eval_cases(ctx, descs):
             (kind == "lat_torsion" and d["kclass"] == "separable") or
             (kind == "pwl_hessian" and d["kclass"] == "linear" and not d["cyclic"]) or
             (kind == "pwl_wrinkle" and d["kclass"] in ("linear", "quadratic") and not d["cyclic"]))
-        if zero_expected and abs(out) > TOL:
+        if zero_expected and abs(out) > tol_of(d):
           fail = "regularizer should vanish on a %s kernel but returned %r" % (d["kclass"], out)
       if fail is None and _truthy(d["l1"]) and _truthy(d["l2"]) and d["via"] == "object":
         # linear in (l1, l2): R(l1, l2) = R(l1, 0) + R(0, l2)
         try:
           a = _run(tf, tfl, d, l1, 0.0)
           b = _run(tf, tfl, d, 0.0, l2)
-          if not _close(a + b, out):
+          if not _close(a + b, out, tol_of(d)):
             fail = "not additive in l1/l2: R(l1,l2)=%r, R(l1,0)+R(0,l2)=%r" % (out, a + b)
         except Exception as e:  # pylint: disable=broad-except
           fail = "regularizer raised %s with one amount set to 0" % type(e).__name__
     if out is None or out != out or out in (float("inf"), float("-inf")):
       coq = None
     else:
-      coq = "mk %s %s %s %s %s %s %s %s" % (
+      coq = "mk %s %s %s %s %s %s %s %s %s" % (
           cnat(KINDS.index(kind)), cnatl(d["sizes"]), cnat(d["units"]), _coq_amount(d["l1"]),
-          _coq_amount(d["l2"]), cbool(d["cyclic"]), cqm(d["kernel"]), cq(out))
+          _coq_amount(d["l2"]), cbool(d["cyclic"]), cqm(d["kernel"]), cq(out), "tol32" if is_f32(d) else "tol")
     if kind.startswith("lat_"):
       klass = "%s_r%d_u%s_%s" % (kind[4:7], len(d["sizes"]), "1" if d["units"] == 1 else "n",
                                   "layer" if d["via"] == "layer" else _aclass(d["l1"], d["l2"]))
     else:
       klass = "pwl_%s_k%s_%s%s" % (kind[4:7], "2" if len(d["kernel"]) == 2 else "3" if len(d["kernel"]) == 3 else "4+",
                                    "cyc" if d["cyclic"] else "lin", "_layer" if d["via"] == "layer" else "")
+    if is_f32(d):
+      klass += "_f32"
     cases.append(Case(d, coq=coq, pred_fail=fail, nontrivial=bool(out), klass=klass, info=info))
   return cases
 
